@@ -29,6 +29,7 @@ func stdOut(p *drv.Plan, results ...*drv.Result) *Out {
 		}
 		mergeProbes(out.Probes, r.W.P)
 		out.Stats["steps"] += r.Steps
+		out.States = append(out.States, r.States...)
 		tr.Add(r.Trace)
 		r.W.Cleanup()
 	}
